@@ -21,22 +21,65 @@ Proof.
 Qed.
 
 (** * the age scan *)
-Lemma scan_bits_found k : forall bits age a, scan_bits k bits age = Found a -> age <= a.
+(** the running age stays a non-negative number in both overflow profiles (it restarts from 0
+    after a wrap in the release profile) *)
+Lemma bump_age_nonneg oc age a : 0 <= age -> bump_age oc age = Some a -> 0 <= a.
+Proof. unfold bump_age. destruct (age =? u32_max); [destruct oc; [discriminate|] |]; intros ? H; inversion H; lia. Qed.
+
+Lemma bump_age_below oc age : age < u32_max -> bump_age oc age = Some (age + 1).
+Proof. unfold bump_age. intros H. replace (age =? u32_max) with false by lia. reflexivity. Qed.
+
+Lemma scan_bits_found oc k : forall bits age a, 0 <= age -> scan_bits oc k bits age = Found a -> 0 <= a.
+Proof.
+  induction k as [|k IH]; intros bits age a Hage H; cbn [scan_bits] in H; [discriminate|].
+  destruct (Z.odd bits); [inversion H; lia|].
+  destruct (bump_age oc age) as [a'|] eqn:B; [|discriminate].
+  apply bump_age_nonneg in B; [|exact Hage]. eapply IH; eassumption.
+Qed.
+
+Lemma scan_bits_more oc k : forall bits age a, 0 <= age -> scan_bits oc k bits age = More a -> 0 <= a.
+Proof.
+  induction k as [|k IH]; intros bits age a Hage H; cbn [scan_bits] in H; [inversion H; lia|].
+  destruct (Z.odd bits); [discriminate|].
+  destruct (bump_age oc age) as [a'|] eqn:B; [|discriminate].
+  apply bump_age_nonneg in B; [|exact Hage]. eapply IH; eassumption.
+Qed.
+
+(** with overflow checks the age only grows; the overflow outcome needs an age at u32::MAX,
+    i.e. more than 2^26 consecutive zero words *)
+Lemma scan_bits_found_ge k : forall bits age a, scan_bits true k bits age = Found a -> age <= a.
 Proof.
   induction k as [|k IH]; intros bits age a H; cbn [scan_bits] in H; [discriminate|].
   destruct (Z.odd bits); [inversion H; lia|].
-  destruct (age =? u32_max); [discriminate|]. apply IH in H. lia.
+  unfold bump_age in H. destruct (age =? u32_max); [discriminate|]. apply IH in H. lia.
 Qed.
 
-Lemma scan_bits_more k : forall bits age a, scan_bits k bits age = More a -> age <= a.
+Lemma scan_bits_no_overflow oc k : forall bits age, age + Z.of_nat k <= u32_max -> scan_bits oc k bits age <> AgeOverflow.
 Proof.
-  induction k as [|k IH]; intros bits age a H; cbn [scan_bits] in H; [inversion H; lia|].
+  induction k as [|k IH]; intros bits age H; cbn [scan_bits]; [discriminate|].
   destruct (Z.odd bits); [discriminate|].
-  destruct (age =? u32_max); [discriminate|]. apply IH in H. lia.
+  rewrite bump_age_below by lia. apply IH. lia.
+Qed.
+
+Lemma scan_bits_more_eq oc k : forall bits age a, age + Z.of_nat k <= u32_max ->
+  scan_bits oc k bits age = More a -> a = age + Z.of_nat k.
+Proof.
+  induction k as [|k IH]; intros bits age a Hk H; cbn [scan_bits] in H; [inversion H; simpl; lia|].
+  destruct (Z.odd bits); [discriminate|].
+  rewrite bump_age_below in H by lia. apply IH in H; lia.
+Qed.
+
+(** the two profiles agree as long as the age stays below u32::MAX *)
+Lemma scan_bits_profiles k : forall bits age, age + Z.of_nat k <= u32_max ->
+  scan_bits true k bits age = scan_bits false k bits age.
+Proof.
+  induction k as [|k IH]; intros bits age H; cbn [scan_bits]; [reflexivity|].
+  destruct (Z.odd bits); [reflexivity|].
+  rewrite !bump_age_below by lia. apply IH. lia.
 Qed.
 
 (** an odd word stops the draw at once *)
-Lemma scan_bits_odd k bits age : Z.odd bits = true -> scan_bits (S k) bits age = Found age.
+Lemma scan_bits_odd oc k bits age : Z.odd bits = true -> scan_bits oc (S k) bits age = Found age.
 Proof. intros H. cbn [scan_bits]. rewrite H. reflexivity. Qed.
 
 Lemma try_candidate_some I lo hi mr age c :
@@ -49,30 +92,45 @@ Proof.
   intros H; inversion H; subst. lia.
 Qed.
 
-Lemma sample_go_spec I lo hi mr : forall ws age c r, 1 <= age ->
-  sample_go I lo hi mr age ws = Ok (c, r) ->
-  (exists a, 1 <= a <= ANCHOR_AGE_CAP /\ c = mr - a * I) /\ lo <= c <= hi /\
+Lemma sample_go_spec oc I lo hi mr : forall ws age c r, 0 <= age ->
+  sample_go oc I lo hi mr age ws = Ok (c, r) ->
+  (exists a, 0 <= a <= ANCHOR_AGE_CAP /\ c = mr - a * I /\ (0 < I -> hi < mr -> 1 <= a)) /\ lo <= c <= hi /\
   exists pre, pre <> [] /\ ws = pre ++ r.
 Proof.
   induction ws as [|w ws IH]; intros age c r Hage H; cbn [sample_go] in H; [discriminate|].
-  destruct (scan_bits 64 w age) as [a|a|] eqn:S; [| |discriminate].
-  - apply scan_bits_found in S.
+  destruct (scan_bits oc 64 w age) as [a|a|] eqn:S; [| |discriminate].
+  - apply scan_bits_found in S; [|exact Hage].
     destruct (try_candidate I lo hi mr a) as [c0|] eqn:T.
     + inversion H; subst. apply try_candidate_some in T. destruct T as (T1 & T2 & T3).
-      split; [exists a; split; [lia | exact T2]|]. split; [exact T3|].
+      split; [exists a; split; [lia | split; [exact T2 | intros; nia]]|]. split; [exact T3|].
       exists [w]. split; [discriminate | reflexivity].
     + destruct (IH 1 c r ltac:(lia) H) as (A & B & pre & Hp & He).
       split; [exact A|]. split; [exact B|]. exists (w :: pre). split; [discriminate | rewrite He; reflexivity].
-  - apply scan_bits_more in S.
+  - apply scan_bits_more in S; [|exact Hage].
     destruct (IH a c r ltac:(lia) H) as (A & B & pre & Hp & He).
     split; [exact A|]. split; [exact B|]. exists (w :: pre). split; [discriminate | rewrite He; reflexivity].
 Qed.
 
+(** the overflow-check profile is unobservable on streams shorter than 2^26 words *)
+Lemma sample_go_profiles I lo hi mr : forall ws age, 0 <= age ->
+  age + 64 * Z.of_nat (length ws) <= u32_max ->
+  sample_go true I lo hi mr age ws = sample_go false I lo hi mr age ws.
+Proof.
+  induction ws as [|w ws IH]; intros age Hage Hlen; cbn [sample_go]; [reflexivity|].
+  cbn [length] in Hlen. rewrite Nat2Z.inj_succ in Hlen.
+  rewrite (scan_bits_profiles 64 w age) by (change (Z.of_nat 64) with 64; lia).
+  destruct (scan_bits false 64 w age) as [a|a|] eqn:S; [| |reflexivity].
+  - destruct (try_candidate I lo hi mr a); [reflexivity|]. apply IH; lia.
+  - assert (Ha : a = age + 64).
+    { apply (scan_bits_more_eq false 64 w age a); [change (Z.of_nat 64) with 64; lia | exact S]. }
+    apply IH; lia.
+Qed.
+
 (** termination witness: with a non-empty candidate range whose top is one interval below the
     most recent boundary (what both callers guarantee), an odd first word is accepted at once *)
-Lemma sample_first_odd I lo hi mr w r :
+Lemma sample_first_odd oc I lo hi mr w r :
   0 < I <= u32_max -> lo <= hi -> hi = mr - I -> 0 <= hi -> Z.odd w = true ->
-  sample_boundary I lo hi mr (w :: r) = Ok (hi, r).
+  sample_boundary oc I lo hi mr (w :: r) = Ok (hi, r).
 Proof.
   intros HI Hl Hh H0 Hw. unfold sample_boundary. cbn [sample_go].
   change 64%nat with (S 63). rewrite scan_bits_odd by exact Hw.
@@ -136,6 +194,7 @@ Qed.
 
 (** * candidate bounds *)
 Section Draw.
+Variable oc : bool.
 Variables I nu f tip : Z.
 Hypothesis HI : 0 < I <= u32_max.
 Hypothesis Hnu : 0 <= nu <= u32_max.
@@ -191,14 +250,15 @@ Qed.
 
 (** a drawn anchor is an admissible boundary ... *)
 Lemma anchor_in_candidates ws b r :
-  draw_anchor_boundary I nu f tip ws = Ok (Some b, r) -> anchor_ok I nu f tip b = true.
+  draw_anchor_boundary oc I nu f tip ws = Ok (Some b, r) -> anchor_ok I nu f tip b = true.
 Proof.
   unfold draw_anchor_boundary. fold mr.
   destruct (candidate_boundary_bounds I nu f mr) as [[lo hi]|] eqn:B; [|discriminate].
-  destruct (sample_boundary I lo hi mr ws) as [[c r0]| |] eqn:S; try discriminate.
+  destruct (sample_boundary oc I lo hi mr ws) as [[c r0]| |] eqn:S; try discriminate.
   intros H; inversion H; subst. unfold sample_boundary in S.
-  apply sample_go_spec in S; [|lia]. destruct S as ([a [Ha Hc]] & Hr & _).
+  apply sample_go_spec in S; [|lia]. destruct S as ([a (Ha0 & Hc & Ha1)] & Hr & _).
   destruct (bounds_some _ _ B) as (E1 & E2 & E3 & E4 & _).
+  assert (Ha : 1 <= a <= ANCHOR_AGE_CAP) by (split; [apply Ha1; lia | lia]).
   destruct mr_facts as (M1 & M2 & M3).
   apply anchor_ok_iff.
   assert (Hm : b mod I = 0) by (subst b; apply mult_sub; [lia | exact M1]).
@@ -211,13 +271,13 @@ Qed.
 
 (** ... and it is absent exactly when no admissible boundary exists, whatever the stream *)
 Lemma anchor_none_iff ws r :
-  draw_anchor_boundary I nu f tip ws = Ok (None, r) <->
+  draw_anchor_boundary oc I nu f tip ws = Ok (None, r) <->
   r = ws /\ forall b, anchor_ok I nu f tip b = false.
 Proof.
   unfold draw_anchor_boundary. fold mr.
   destruct (candidate_boundary_bounds I nu f mr) as [[lo hi]|] eqn:B.
   - destruct (bounds_some _ _ B) as (_ & _ & _ & _ & Hok). split.
-    + destruct (sample_boundary I lo hi mr ws) as [[c r0]| |]; discriminate.
+    + destruct (sample_boundary oc I lo hi mr ws) as [[c r0]| |]; discriminate.
     + intros [_ Hall]. rewrite Hall in Hok. discriminate.
   - split.
     + intros H; inversion H; subst. split; [reflexivity | apply bounds_none; exact B].
@@ -227,24 +287,24 @@ Qed.
 (** with an admissible boundary available the only other outcome is the generator running dry *)
 Lemma anchor_total ws :
   (exists b, anchor_ok I nu f tip b = true) ->
-  draw_anchor_boundary I nu f tip ws = Panic \/
-  exists b r, draw_anchor_boundary I nu f tip ws = Ok (Some b, r).
+  draw_anchor_boundary oc I nu f tip ws = Panic \/
+  exists b r, draw_anchor_boundary oc I nu f tip ws = Ok (Some b, r).
 Proof.
   intros [b0 Hb0]. unfold draw_anchor_boundary. fold mr.
   destruct (candidate_boundary_bounds I nu f mr) as [[lo hi]|] eqn:B.
-  - destruct (sample_boundary I lo hi mr ws) as [[c r0]|e|]; eauto.
+  - destruct (sample_boundary oc I lo hi mr ws) as [[c r0]|e|]; eauto.
   - rewrite (bounds_none B b0) in Hb0. discriminate.
 Qed.
 
 (** an odd first word is enough *)
 Lemma anchor_first_odd w r :
   (exists b, anchor_ok I nu f tip b = true) -> Z.odd w = true ->
-  draw_anchor_boundary I nu f tip (w :: r) = Ok (Some (mr - I), r).
+  draw_anchor_boundary oc I nu f tip (w :: r) = Ok (Some (mr - I), r).
 Proof.
   intros [b0 Hb0] Hw. unfold draw_anchor_boundary. fold mr.
   destruct (candidate_boundary_bounds I nu f mr) as [[lo hi]|] eqn:B.
   - destruct (bounds_some _ _ B) as (E1 & E2 & E3 & _ & _).
-    rewrite (sample_first_odd I lo hi mr w r); try lia; try assumption. rewrite E1. reflexivity.
+    rewrite (sample_first_odd oc I lo hi mr w r); try lia; try assumption. rewrite E1. reflexivity.
   - rewrite (bounds_none B b0) in Hb0. discriminate.
 Qed.
 
@@ -273,16 +333,15 @@ Proof.
   assert (boundary_at_or_below I tip + I <= x) by (apply mult_lt; try assumption; lia). lia.
 Qed.
 
-Lemma earliest_viable I nu f tip :
+(** The exact threshold, in unbounded arithmetic: the candidate set at [tip] is non-empty iff
+    [tip] is at least one interval past the lowest candidate. *)
+Lemma earliest_threshold I nu f tip :
   0 < I <= u32_max -> 0 <= nu <= u32_max -> 0 <= f <= u32_max -> 0 <= tip <= u32_max ->
-  earliest_broadcast_height I nu f < u32_max ->
-  ((exists b, anchor_ok I nu f tip b = true) <-> earliest_broadcast_height I nu f <= tip).
+  ((exists b, anchor_ok I nu f tip b = true) <-> lowest_candidate_boundary I nu f + I <= tip).
 Proof.
-  intros HI Hnu Hf Ht He. unfold earliest_broadcast_height, sat_add_u32 in *.
+  intros HI Hnu Hf Ht.
   set (lo := lowest_candidate_boundary I nu f) in *.
   pose proof (lowest_nonneg I nu f ltac:(lia) Hf) as Hl0. fold lo in Hl0.
-  assert (Hlo : lo + I < u32_max) by lia. rewrite Z.min_r by lia.
-  assert (Hlm : lo mod I = 0) by (apply lowest_is_boundary; try lia).
   destruct (mr_facts I tip HI Ht) as (M1 & M2 & M3).
   split.
   - intros [b Hb].
@@ -290,6 +349,7 @@ Proof.
     + destruct (bounds_some I nu f tip HI Hnu Hf Ht _ _ B) as (E1 & E2 & E3 & E4 & _). fold lo in E4. lia.
     + rewrite (bounds_none I nu f tip HI Hnu Hf Ht B b) in Hb. discriminate.
   - intros Hle. exists (boundary_at_or_below I tip - I).
+    assert (Hlm : lo mod I = 0) by (apply lowest_is_boundary; try lia; fold lo; lia).
     assert (Hge : lo + I <= boundary_at_or_below I tip).
     { apply below_greatest; try lia. replace (lo + I) with (lo + 1 * I) by lia. rewrite Z.mod_add by lia. exact Hlm. }
     assert (B : candidate_boundary_bounds I nu f (boundary_at_or_below I tip) = Some (lo, boundary_at_or_below I tip - I)).
@@ -299,8 +359,44 @@ Proof.
     destruct (bounds_some I nu f tip HI Hnu Hf Ht _ _ B) as (_ & _ & _ & _ & Hok). exact Hok.
 Qed.
 
+(** [earliest_broadcast_height] is that threshold whenever it fits u32 ... *)
+Lemma earliest_viable I nu f tip :
+  0 < I <= u32_max -> 0 <= nu <= u32_max -> 0 <= f <= u32_max -> 0 <= tip <= u32_max ->
+  lowest_candidate_boundary I nu f + I <= u32_max ->
+  ((exists b, anchor_ok I nu f tip b = true) <-> earliest_broadcast_height I nu f <= tip).
+Proof.
+  intros HI Hnu Hf Ht Hs. rewrite earliest_threshold by assumption.
+  unfold earliest_broadcast_height, sat_add_u32. rewrite Z.min_r by lia. reflexivity.
+Qed.
+
+(** ... and when the threshold exceeds u32::MAX the function returns u32::MAX although no
+    height at all (u32::MAX included) has a candidate *)
+Lemma earliest_saturated I nu f :
+  0 < I <= u32_max -> 0 <= nu <= u32_max -> 0 <= f <= u32_max ->
+  u32_max < lowest_candidate_boundary I nu f + I ->
+  earliest_broadcast_height I nu f = u32_max /\
+  forall tip b, 0 <= tip <= u32_max -> anchor_ok I nu f tip b = false.
+Proof.
+  intros HI Hnu Hf Hs. split.
+  - unfold earliest_broadcast_height, sat_add_u32. lia.
+  - intros tip b Ht. destruct (anchor_ok I nu f tip b) eqn:A; [|reflexivity]. exfalso.
+    assert (lowest_candidate_boundary I nu f + I <= tip) by (apply earliest_threshold; eauto). lia.
+Qed.
+
+(** so the documented guarantee ("a tip at or after this height always has a boundary to anchor
+    to") fails at saturation *)
+Lemma earliest_saturation_gap :
+  earliest_broadcast_height 144 4294967150 0 = u32_max /\
+  forall b, anchor_ok 144 4294967150 0 u32_max b = false.
+Proof.
+  destruct (earliest_saturated 144 4294967150 0) as [E A]; try (unfold u32_max; lia).
+  - vm_compute. reflexivity.
+  - split; [exact E|]. intros b. apply A. unfold u32_max. lia.
+Qed.
+
 (** * the redraw *)
 Section Redraw.
+Variable oc : bool.
 Variables I prior bc : Z.
 Hypothesis HI : 0 < I <= u32_max.
 Hypothesis Hp : 0 <= prior <= u32_max.
@@ -317,14 +413,15 @@ Proof.
 Qed.
 
 Lemma redraw_in_candidates ws b r :
-  redraw_anchor_boundary I prior bc ws = Ok (Some b, r) -> redraw_ok I prior bc b = true.
+  redraw_anchor_boundary oc I prior bc ws = Ok (Some b, r) -> redraw_ok I prior bc b = true.
 Proof.
   unfold redraw_anchor_boundary, checked_sub_u32. fold mr.
   destruct (I <=? mr) eqn:E; [|discriminate].
   destruct (mr - I <? boundary_at_or_above I prior) eqn:E2; [discriminate|].
-  destruct (sample_boundary I (boundary_at_or_above I prior) (mr - I) mr ws) as [[c r0]| |] eqn:S; try discriminate.
+  destruct (sample_boundary oc I (boundary_at_or_above I prior) (mr - I) mr ws) as [[c r0]| |] eqn:S; try discriminate.
   intros H; inversion H; subst. unfold sample_boundary in S.
-  apply sample_go_spec in S; [|lia]. destruct S as ([a [Ha Hc]] & Hr & _).
+  apply sample_go_spec in S; [|lia]. destruct S as ([a (Ha0 & Hc & Ha1)] & Hr & _).
+  assert (Ha : 1 <= a <= ANCHOR_AGE_CAP) by (split; [apply Ha1; lia | lia]).
   destruct (mr_facts I bc HI Hb) as (M1 & M2 & M3). fold mr in M1, M2, M3.
   destruct (above_props I prior ltac:(lia) Hp) as (A1 & A2 & A3). cbv zeta in *.
   apply redraw_ok_iff.
@@ -333,7 +430,7 @@ Proof.
 Qed.
 
 Lemma redraw_none_iff ws r :
-  redraw_anchor_boundary I prior bc ws = Ok (None, r) <->
+  redraw_anchor_boundary oc I prior bc ws = Ok (None, r) <->
   r = ws /\ forall b, redraw_ok I prior bc b = false.
 Proof.
   unfold redraw_anchor_boundary, checked_sub_u32. fold mr.
@@ -350,7 +447,7 @@ Proof.
         assert (boundary_at_or_above I prior <= b) by (apply A3; [assumption | lia]). lia.
       * intros [-> _]. reflexivity.
     + split.
-      * destruct (sample_boundary I (boundary_at_or_above I prior) (mr - I) mr ws) as [[c r0]| |]; discriminate.
+      * destruct (sample_boundary oc I (boundary_at_or_above I prior) (mr - I) mr ws) as [[c r0]| |]; discriminate.
       * intros [_ Hall]. exfalso.
         assert (R : redraw_ok I prior bc (mr - I) = true).
         { apply redraw_ok_iff.
